@@ -29,8 +29,10 @@ func (propC11) Rule() string {
 func (propC11) Assumptions() []string {
 	return []string{"structure clauses are asserted only for text Parse accepts; rejecting text is always allowed", "line classification uses only the statement's vocabulary: blank, comment (#), label (no blank, ends with ':'), instruction"}
 }
-func (propC11) MinEvents(string) []string { return []string{"texts", "accepted", "rejected", "probed-instructions"} }
-func (propC11) Exhaustive(string) bool    { return false }
+func (propC11) MinEvents(string) []string {
+	return []string{"texts", "accepted", "rejected", "probed-instructions"}
+}
+func (propC11) Exhaustive(string) bool { return false }
 
 var c11Res []string
 
